@@ -55,6 +55,28 @@ pub mod proofs {
     h!(public_rng_fail_closed_, public_rng_fail_closed::<V>(arm, draws));
     /// Argon2id parameter block (mem bytes u64 BE, time u32 BE, parallelism u32 BE): valid iff mem is
     /// a multiple of 1024, mem/1024 fits u32 and is >= 8 and >= 8*para, time >= 1, 1 <= para <= 0xFFFFFF
+    /// The memory field alone (it is the one field CBMC reads correctly through zerocopy's pointer
+    /// cast, DESIGN.md 7.2): time and parallelism are the byte-palindromes 00 01 01 00 (= 65792 in
+    /// either byte order).  pw_wrap_key reaches the KDF iff mem is a multiple of 1024 whose KiB count
+    /// fits u32 and is at least 8 * parallelism; the path ends at the KDF.
+    h!(c05_pbkw_mem_domain, {
+        use paseto_core::paserk::PwWrapVersion;
+        let mb: [u8; 8] = kani::any();
+        let mem = u64::from_be_bytes(mb);
+        let pb: [u8; 16] = [mb[0], mb[1], mb[2], mb[3], mb[4], mb[5], mb[6], mb[7], 0, 1, 1, 0, 0, 1, 1, 0];
+        let para = 0x0001_0100u64;
+        let kib = mem >> 10;
+        let valid = mem & 1023 == 0 && kib <= u32::MAX as u64 && kib >= 8 * para;
+        let p = pw_params_from_bytes::<V, 56>(16, &pb).unwrap();
+        unsafe {
+            argon2::ABORT_AT_KDF = true;
+            argon2::EXPECT_VALID = valid;
+        }
+        fn calls() -> usize {
+            unsafe { argon2::CALLS }
+        }
+        pw_param_domain::<V>(".local-pw.", p, valid, calls)
+    });
     h!(c05_pbkw_param_domain, {
         use paseto_core::paserk::PwWrapVersion;
         let pb: [u8; 16] = kani::any();
